@@ -2,7 +2,7 @@
 (***************************************************************************)
 (* C02 on the specification: for every printer option set po, every parser *)
 (* option set ro compatible with it, and every probe value v:              *)
-(*        ReadOne(Print(v, po), ro) = Fold(v, po, ro)                      *)
+(*        ReadOne(PrintDatum(v, po), ro) = Fold(v, po, ro)                      *)
 (* Each compatible pairing is emitted so that the harness replays it with  *)
 (* the real printer and parser; the documented folding of every probe      *)
 (* value is emitted once per combination of the five option fields it      *)
@@ -46,7 +46,7 @@ Next ==
 Spec == Init /\ [][Next]_vars
 
 RoundTrip(v) ==
-  LET r == ReadOne(Print(v, po), ro) IN r.t = "ok" /\ r.v = Fold(v, po, ro)
+  LET r == ReadOne(PrintDatum(v, po), ro) IN r.t = "ok" /\ r.v = Fold(v, po, ro)
 
 AllRoundTrip == phase = 1 => \A v \in ProbeC02 : RoundTrip(v)
 
